@@ -906,8 +906,8 @@ def _array_reader_by_interpretation(prog, b, name):
             if got != [float(10 + k) for k in range(6)]:
                 problems.append('%s reads as %s, expected its entries as they are' % (what, got if r[1] == 0 else 'an error value'))
         elif n == 5:
-            if not (got is not None and len(got) == 6 and got[:5] == [float(10 + k) for k in range(5)] and isinstance(got[5], float)):
-                problems.append('%s reads as %s, expected its entries and one pad value' % (what, got if r[1] == 0 else 'an error value'))
+            if not (got is not None and len(got) == 6 and got[:5] == [float(10 + k) for k in range(5)] and got[5] == 0.0):
+                problems.append('%s reads as %s, expected its entries and a sixth entry of 0' % (what, got if r[1] == 0 else 'an error value'))
             else:
                 padv = got[5]
         elif r[1] != 1:
